@@ -16,6 +16,7 @@ import (
 	"strconv"
 	"strings"
 	"sync"
+	"sync/atomic"
 	"syscall"
 	"time"
 
@@ -241,7 +242,13 @@ func (e *Exec) Close() error {
 	return nil
 }
 
-const opTimeout = 30 * time.Second
+const opTimeout = 20 * time.Second
+
+var hung atomic.Bool
+
+// Hung reports that some operation did not return: generators stop emitting, so that the run ends with the
+// hanging case as a concrete violation instead of running into the harness timeout.
+func Hung() bool { return hung.Load() }
 
 const maintainPasses = 6
 
@@ -272,6 +279,7 @@ func (e *Exec) Do(line string) string {
 		return r.s
 	case <-time.After(opTimeout):
 		e.dead = true
+		hung.Store(true)
 		return "HANG"
 	}
 }
@@ -1002,6 +1010,18 @@ func (e *Exec) do(line string) string {
 			return "bad-op"
 		}
 		return ErrStr(i.Delete(e.db + ":" + f[2]))
+	case "reput":
+		// get a record and put the very object back (the usual read-modify-write without the modify):
+		// a record object with history — metadata, cache membership, storage representation
+		i := needIf(3)
+		if i == nil {
+			return "bad-op"
+		}
+		r, err := i.Get(e.db + ":" + f[2])
+		if err != nil {
+			return ErrStr(err)
+		}
+		return ErrStr(i.Put(r))
 	case "setabs":
 		i := needIf(4)
 		t, ok := e.ParseTs(f[len(f)-1])
